@@ -10,6 +10,7 @@ LEVELS = {
  "C16": ("exploration", "4.C16", "Exhaustive over the finite configuration space the statement names (all 41x41 ordered type pairs for * and /, every class against numbers and SI values, all SI signatures with <=3 non-zero exponents in all 8 print formats), sampled beyond it (random full signatures and values). Oracle = signature calculus + one IEEE operation, compared bit-for-bit.", "Quantity.sisig() of a named class is taken as that class's dimension; finite non-zero operand values."),
  "C17": ("exploration", "4.C17", "Exhaustive over the declaration tables: all 838 declared units of all 41 classes x 9 values, all (unit, unit2) re-expressions per class, all display aliases, all base units, all names in __all__ (also in a fresh interpreter); 231 compound and 429 SI-prefixed spellings recomputed from other declared units; plus random (class, unit, unit2, value) quadruples. Oracle = value*factor bit-for-bit.", "The class tables documented in Quantity's docstring are the declarations; compound spellings that cannot be resolved into declared atoms are counted, not judged."),
  "C18": ("exploration", "4.C18", "Thousands of generated operation histories on parameter trees (all eight classes, valid/invalid constructions, sets through object and model, get/remove by dotted key) stepped against a reference tree; the whole real tree is audited after every operation and icontract class invariants run at every public call in a quarter of the shards. Held = no audit, invariant or outcome differed.", "bool-for-int and Quantity-for-float are accepted either way; keys are relative to the root map."),
+ "C08": ("exploration", "4.C08", "Tens of thousands of generated subscribe/unsubscribe/fire histories with re-entrant listener scripts; the complete delivery log (listener, type, unique content id, timestamp) of every top-level operation is compared with an executable reference subscription model, has_listeners() after every operation; generated payload shapes against generated metadata declarations. Held = no log differed, no non-conforming event was created.", "Only 'created => conforms' is judged for metadata; recursion bounded at depth 3 / 2 activations per (listener, type) in both model and real run."),
 }
 
 def main():
